@@ -1176,6 +1176,16 @@ func protoConfigurationToRaftConfiguration(configuration *ConfigurationValue) (u
 type FSMChunkStorage struct {
 	f   *FSM
 	ctx context.Context
+
+	// dropOtherTerms is set when the chunking wrapper asks for all stored
+	// chunks to be dropped because it saw a chunk of a term other than the one
+	// it remembers. The wrapper keeps that term in memory only, so it also
+	// asks for this on the first chunk after a restart or snapshot install,
+	// when the stored chunks may well belong to the current term and to an
+	// operation whose remaining chunks are still to come. The drop is
+	// therefore carried out by the following StoreChunk, which knows the term
+	// and removes exactly the chunks of other terms.
+	dropOtherTerms atomic.Bool
 }
 
 // chunkPaths returns a disk prefix and key given chunkinfo
@@ -1204,6 +1214,12 @@ func (f *FSMChunkStorage) StoreChunk(chunk *raftchunking.ChunkInfo) (bool, error
 	// Start a write transaction.
 	done := new(bool)
 	if err := f.f.db.Update(func(tx *bolt.Tx) error {
+		if f.dropOtherTerms.Load() {
+			if err := f.deleteChunksOfOtherTerms(tx, chunk.Term); err != nil {
+				return err
+			}
+		}
+
 		if err := tx.Bucket(dataBucketName).Put([]byte(entry.Key), entry.Value); err != nil {
 			return fmt.Errorf("error storing chunk info: %w", err)
 		}
@@ -1231,8 +1247,33 @@ func (f *FSMChunkStorage) StoreChunk(chunk *raftchunking.ChunkInfo) (bool, error
 	}); err != nil {
 		return false, err
 	}
+	f.dropOtherTerms.Store(false)
 
 	return *done, nil
+}
+
+// deleteChunksOfOtherTerms removes every stored chunk that was not written
+// under the given term. Chunks that cannot be decoded are removed as well.
+func (f *FSMChunkStorage) deleteChunksOfOtherTerms(tx *bolt.Tx, term uint64) error {
+	b := tx.Bucket(dataBucketName)
+	prefixBytes := []byte(chunkingPrefix)
+
+	var stale [][]byte
+	c := b.Cursor()
+	for k, v := c.Seek(prefixBytes); k != nil && bytes.HasPrefix(k, prefixBytes); k, v = c.Next() {
+		var ci raftchunking.ChunkInfo
+		if err := jsonutil.DecodeJSON(v, &ci); err != nil || ci.Term != term {
+			stale = append(stale, append([]byte(nil), k...))
+		}
+	}
+
+	for _, k := range stale {
+		if err := b.Delete(k); err != nil {
+			return fmt.Errorf("error deleting chunk of an earlier term: %w", err)
+		}
+	}
+
+	return nil
 }
 
 func (f *FSMChunkStorage) FinalizeOp(opNum uint64) ([]*raftchunking.ChunkInfo, error) {
@@ -1318,6 +1359,12 @@ func (f *FSMChunkStorage) GetChunks() (raftchunking.ChunkMap, error) {
 }
 
 func (f *FSMChunkStorage) RestoreChunks(chunks raftchunking.ChunkMap) error {
+	if len(chunks) == 0 {
+		// Term change as seen by the chunking wrapper; see dropOtherTerms.
+		f.dropOtherTerms.Store(true)
+		return nil
+	}
+
 	if err := f.f.DeletePrefix(f.ctx, chunkingPrefix); err != nil {
 		return fmt.Errorf("error deleting prefix for chunk restoration: %w", err)
 	}
